@@ -1,9 +1,12 @@
 #!/bin/bash
-# usage: tools/try_mutant.sh <patch.diff> <Cnn> [tier]   — applies the patch to /repo, runs the check, undoes it
-set -u
+# usage: tools/try_mutant.sh <patch.diff> <Cnn> [tier]   — applies the patch to a scratch worktree of /repo's HEAD
+# (MUT_REPO, default /tmp/mutrepo; /repo itself is not touched), runs the check against it (FGGS_REPO), reverts
+cd "$(dirname "$0")/.."
 P=$(realpath "$1"); C=$2; T=${3:-quick}
-git -C /repo apply "$P" || { echo "patch does not apply"; exit 3; }
-cd /verif && ./check "$C" --tier "$T"; rc=$?
-git -C /repo checkout -- . 
-echo "check exit=$rc"
-exit $rc
+R=${MUT_REPO:-/tmp/mutrepo}
+[ -d "$R" ] || git -C /repo worktree add --detach "$R" >/dev/null 2>&1
+git -C "$R" checkout -q -- . && git -C "$R" checkout -q --detach "$(git -C /repo rev-parse HEAD)"
+git -C "$R" apply "$P" || { echo "patch does not apply"; exit 3; }
+FGGS_REPO=$R ./check $C --tier $T 2>&1 | grep -E '^VIOLATION|^KNOWN|^\[C' ; rc=${PIPESTATUS[0]}
+git -C "$R" checkout -q -- .
+echo "exit=$rc"
